@@ -104,7 +104,9 @@ def malformed(rnd, n):
             items = bytes(rnd.choice(b'abcxyz019_') for _ in range(rnd.randint(0, 4)))
             t, c = v + b'[' + (b'^' if rnd.random() < 0.3 else b'') + items + rnd.choice([b'', b'a-', b'\\', b'\\x4']), 'unterminated set'
         elif k == 4:
-            t, c = v + rnd.choice([b'{}', b'{', b'{2', b'{x}', b'{2,3}', b'{-1}']) + rnd.choice([b'', w]), 'dangling or empty repetition'
+            # a repetition count is a non-empty string of the digits 0-9 and nothing else (every other byte of the 0x30 column, signs, blanks, letters)
+            cnt = rnd.choice([b'{}', b'{', b'{2', b'{x}', b'{2,3}', b'{-1}', b'{:}', b'{;}', b'{<}', b'{=}', b'{>}', b'{1:}', b'{=2}', b'{2;3}', b'{/}', b'{ 2}', b'{2 }', b'{+2}', b'{2a}', b'{0x2}', b'{\\x32}'])
+            t, c = v + cnt + rnd.choice([b'', w]), 'dangling or empty repetition'
         elif k == 5:
             t, c = rnd.choice([v + b'|', b'|' + v, v + b'||' + w, b'(|' + v + b')', v + b'()' + w, b'(' + v + b'|)' + w]), 'empty alternative'
         elif k == 6:
@@ -256,11 +258,16 @@ def cxx_str(b):
         else: out.append('\\x%02x""' % ch)
     return '"' + ''.join(out) + '"'
 
-def emit_ct(pats, literals=None):
+def emit_ct(pats, literals=None, with_parser=None):
     o = ['#include "vf_harness.hpp"', 'using namespace ctpg;']
     for i, p in enumerate(pats):
         o.append('constexpr char p%d[] = %s;' % (i, cxx_str(p)))
         o.append('constexpr regex::expr<p%d> r%d;' % (i, i))
+    for i in (with_parser or []):
+        o.append('namespace pp%d { constexpr nterm<int> S("S"); constexpr regex_term<p%d> t("t"); constexpr parser p(S, terms(t), nterms(S), rules(S(t) >= [](auto) { return 1; })); }' % (i, i))
+    o.append('''template<class P> void pquery(int i, const P& p, const std::string& s) {
+  ctpg::buffers::string_buffer sb{ std::string(s) }; ctpg::utils::no_stream ns; auto r = p.parse(ctpg::parse_options{}.set_skip_whitespace(false), sb, ns);
+  std::printf("T %d %d\\n", i, int(r.has_value())); }''')
     o.append('''template<class E> void dump(int i, const E& e) {
   std::string d; ctpg::verif::access::dump_dfa(ctpg::verif::access::expr_sm(e), d);
   std::printf("R %d ok %d %zu 0 0 0 0 0 -\\n%sE %d\\n", i, int(E::dfa_size), ctpg::verif::access::expr_sm(e).size(), d.c_str(), i); }
@@ -276,7 +283,7 @@ int main(int argc, char** argv) {
   while (std::getline(in, line)) { std::istringstream ls(line); std::string cmd, hs; int i; ls >> cmd >> i >> hs; if (hs == "-") hs.clear(); std::string s = vf::unhex(hs);
     switch (i) {''')
     for i in range(len(pats)):
-        o.append('    case %d: if (cmd == "P") dump(%d, r%d); else query(%d, r%d, s); break;' % (i, i, i, i, i))
+        o.append('    case %d: if (cmd == "P") dump(%d, r%d); else { query(%d, r%d, s); %s } break;' % (i, i, i, i, i, ('pquery(%d, pp%d::p, s);' % (i, i)) if i in (with_parser or []) else ''))
     o.append('    }\n  }\n  std::printf("END\\n"); return 0; }')
     lit = '\n'.join('  std::printf("L %d %d %%d\\n", int(r%d.match(%s)));' % (i, k, i, cxx_str(sv)) for i, k, sv in (literals or []))
     return ('\n'.join(o) + '\n').replace('%(literals)s', lit)
@@ -297,7 +304,9 @@ def judge_ct(args):
             a = rr.sample_string(ast, rnd); b2 = rr.sample_string(ast, rnd)
             for k, sv in enumerate([a, a[:-1], a + b'\x00' + b2, a + b2, b'']): literals.append((i, k, sv))
         try:
-            exe = common.build(emit_ct(pats, literals), flavour, name='regex_ct')
+            # the same pattern as the only term of a parser (the generated lexer builds its automaton through another entry point than regex::expr)
+            with_parser = [i for i, (ast, t) in enumerate(items) if prop == 'C03' and not rr.Glushkov(ast).nullable and rr.positions_count(ast) <= 40][:4]
+            exe = common.build(emit_ct(pats, literals, with_parser), flavour, name='regex_ct')
         except common.BuildError as e:
             out['viol'].append((['site:regex::expr@constant-evaluation'], 'regex::expr objects for patterns in the documented syntax do not compile: %s' % e.diag[:600], {'patterns': [p.hex() for p in pats]}))
             return out
@@ -311,6 +320,9 @@ def judge_ct(args):
             alpha = sorted({b for s_ in ref.g.sets for b in list(s_)[:2]} | {0x61, 0})
             strs = {b''}
             for _ in range(12): strs.add(bytes(rnd.choice(alpha) for _ in range(rnd.randint(0, 6))))
+            for _ in range(4):
+                m_ = rr.sample_string(ast, rnd)          # members and their neighbours
+                if len(m_) <= 200: strs.add(m_); strs.add(m_[:-1]); strs.add(m_.replace(b' ', b''))
             if prop == 'C06':
                 for _ in range(6): strs.add(bytes(rnd.randrange(256) for _ in range(rnd.randint(1, 40))))
                 strs.add(rr.sample_string(ast, rnd) + b'\x00'); strs.add(rr.sample_string(ast, rnd)[:-1])
@@ -345,6 +357,7 @@ def judge_ct(args):
             if ln.startswith('R '): cur = int(ln.split()[1]); dumps[cur] = {'hdr': ln.split(), 'q': []}
             elif ln.startswith('Q ') and cur is not None: dumps[cur]['q'].append(ln)
             elif ln.startswith('A '): answers.append(ln.split())
+        tans = [x for x in (ln.split() for ln in text.split('\n') if ln.startswith('T '))]
         lit_res = {(int(x[1]), int(x[2])): x[3] == '1' for x in (ln.split() for ln in text.split('\n') if ln.startswith('L '))}
         for (i, k, sv) in literals:
             if (i, k) not in lit_res or prop in ('C12', 'C06'): continue
@@ -376,6 +389,17 @@ def judge_ct(args):
             w = rr.equivalent(refs[i], rr.ObsDFA(states))
             if w is not None:
                 queries.append((i, w))
+        # the regex_term inside a parser: the whole (non-empty) string is one token iff it is in the language
+        tq = [(i, s_) for (i, s_) in queries[:len(answers)] if i in with_parser]
+        for (i, s_), a in zip(tq, tans):
+            if not s_ or len(s_) > 60000: continue
+            ast, t = items[i]; want = refs[i].full_match(s_); got = a[2] == '1'
+            C['regex_term_in_parser_calls_observed'] += 1
+            if got != want:
+                det = rr.Glushkov(ast).deterministic(); nested = nested_loop(ast)
+                keys = [pattern_key(t)] + ([] if det else [CLASS_KEY]) + ([NESTED_KEY] if det and nested else [])
+                out['viol'].append((keys, 'regex_term<%r> as the only term of a parser %s %s but the string %s in the language' % (t, 'accepts' if got else 'rejects', short(s_), 'is' if want else 'is not'),
+                                    {'pattern': t.decode('latin-1'), 'pattern_hex': t.hex(), 'witness_hex': s_.hex(), 'matcher_says': got}))
         # answers for the pre-planned queries
         for (i, s_), a in zip(queries, answers):
             ast, t = items[i]
